@@ -260,6 +260,9 @@ pub fn g_input(max_len: usize) -> BS<(Vec<u8>, &'static str)> {
         2 => g_anybytes(64).prop_map(|b| (b, "anybytes")),
         3 => g_string_literal().prop_map(|b| (b, "string-literal")),
         2 => g_char_literal().prop_map(|b| (b, "char-literal")),
+        // numeric literals of C05's grammars (radix prefixes, hundreds of
+        // digits, exponents at the i32 boundaries), bare and inside a list
+        2 => (crate::props::c05::g_lit(), any::<bool>()).prop_map(|((l, _), wrap)| ((if wrap { format!("(a {} . {})", l.text(), l.text()) } else { l.text() }).into_bytes(), "numeric-literal")),
     ]
     .prop_map(move |(mut b, l)| {
         b.truncate(max_len);
